@@ -95,7 +95,7 @@ def first_rec(v):
     return None
 
 
-def run(chk, S: Session):
+def _run_own(chk, S: Session):
     chk.trust("jax.experimental.jet", "Jacobian handlers return (fx, J, state)")
     r1 = chk.rule("R-C11-1", "lift_by range / type guards raise before the jet call; already-lifted ODEs are rejected", floor=30)
     r2 = chk.rule("R-C11-2", "in lift(), time is a differentiated input with series (1, 0, ...)", floor=6)
@@ -539,3 +539,11 @@ def linearize_rules(chk, S, r5):
             except (AnalysisError, RaiseSignal) as e:
                 detail = str(e)
         r5.require(oks, f"{name}.linearize selector", "selects exactly tcoeff_indices_output", detail, qual)
+
+
+def run(chk, S: Session):
+    _run_own(chk, S)
+    from ..harness import borrow
+
+    rb = chk.rule("R-C11-B", "clause of this statement decided by a rule of C17 (the full / per-dimension / trace-averaged Jacobian blocks the linearisations consume)", floor=9)
+    borrow(chk, S, rb, "C17", lambda r, c: r == "R-C17-1")
